@@ -86,7 +86,12 @@ var (
 
 // c17Retry: RetryWithBackoff in a bubble against a reference timeline.
 func c17Retry(c *CheckCtx, counts map[string]int, samples *[]any) {
-	cfgB := leader.BackoffConfig{InitialBackoff: 50 * time.Millisecond, MaxBackoff: 400 * time.Millisecond, BackoffMultiplier: 2, Jitter: 0.1}
+	c17RetryCfg(c, counts, samples, leader.BackoffConfig{InitialBackoff: 50 * time.Millisecond, MaxBackoff: 400 * time.Millisecond, BackoffMultiplier: 2, Jitter: 0.1}, 5)
+	// a configuration whose computed wait is 0 ns (valid: no lower bound on InitialBackoff)
+	c17RetryCfg(c, counts, samples, leader.BackoffConfig{InitialBackoff: 0, MaxBackoff: 0, BackoffMultiplier: 2, Jitter: 0}, 4)
+}
+
+func c17RetryCfg(c *CheckCtx, counts map[string]int, samples *[]any, cfgB leader.BackoffConfig, maxLen int) {
 	outcomes := []string{"ok", "tr", "pe"}
 	var seqs [][]string
 	var gen func(cur []string, n int)
@@ -99,7 +104,7 @@ func c17Retry(c *CheckCtx, counts map[string]int, samples *[]any) {
 			gen(append(cur, o), n-1)
 		}
 	}
-	gen(nil, 5)
+	gen(nil, maxLen)
 	randSeq := []float64{0.5, 0, floatMax, 0.25}
 	for _, seq := range seqs {
 		for maxA := 0; maxA <= 4; maxA++ {
@@ -204,7 +209,7 @@ func c17Retry(c *CheckCtx, counts map[string]int, samples *[]any) {
 					if len(want.calls) > 1 {
 						counts["retry_nontrivial"]++
 					}
-					desc := fmt.Sprintf("RetryWithBackoff outcomes=%v MaxAttempts=%d breakerThreshold=%d cancelAt=%v", seq, maxA, breaker, cancelAt)
+					desc := fmt.Sprintf("RetryWithBackoff outcomes=%v MaxAttempts=%d breakerThreshold=%d cancelAt=%v backoff=%v/x%v/j%v", seq, maxA, breaker, cancelAt, cfgB.InitialBackoff, cfgB.BackoffMultiplier, cfgB.Jitter)
 					gotRet := "nil"
 					switch {
 					case gotErr == nil:
@@ -517,7 +522,7 @@ func c17Plan(tier string) []PlanItem {
 func init() {
 	props["C17"] = &propDef{
 		Level:  "exploration",
-		Rule:   "(i) CalculateBackoff over the product of a backoff-config lattice x attempts {0..70, 1000, 2^31, MaxInt} x owned random values {0,.25,.5,.75,1-2^-53} against interval arithmetic; (ii) RetryWithBackoff in a virtual-time bubble for every outcome sequence over {ok,transient,permanent} of length <=5 x MaxAttempts 0..4 x breaker {none,1,2} x cancellation before the first call and in the middle of every wait, against a reference timeline (exact call instants, result class); (iii) CircuitBreaker for every length-6 sequence of (outcome, gap in {0, cooldown-1ns, cooldown+1ns}) x threshold 1..3 against a reference FSM; (iv) every acquisition round in every explored execution (<= D deviations, incl. all jitter/backoff draws from the menu) of the listed election scenarios: first Create exactly 10ms + r*90ms after the round's trigger, <=4 attempts, gaps equal to the backoff for the drawn value. evaluations/distinct_nontrivial count the executions of (iv); the direct enumerations are reported under direct_*",
+		Rule:   "(i) CalculateBackoff over the product of a backoff-config lattice x attempts {0..70, 1000, 2^31, MaxInt} x owned random values {0,.25,.5,.75,1-2^-53} against interval arithmetic; (ii) RetryWithBackoff in a virtual-time bubble for every outcome sequence over {ok,transient,permanent} of length <=5 x MaxAttempts 0..4 x breaker {none,1,2} x cancellation before the first call and in the middle of every wait, for a 50ms..400ms x2 backoff and (length <=4) a configuration whose waits are 0ns (InitialBackoff 0), against a reference timeline (exact call instants, result class); (iii) CircuitBreaker for every length-6 sequence of (outcome, gap in {0, cooldown-1ns, cooldown+1ns}) x threshold 1..3 against a reference FSM; (iv) every acquisition round in every explored execution (<= D deviations, incl. all jitter/backoff draws from the menu) of the listed election scenarios: first Create exactly 10ms + r*90ms after the round's trigger, <=4 attempts, gaps equal to the backoff for the drawn value. evaluations/distinct_nontrivial count the executions of (iv); the direct enumerations are reported under direct_*",
 		Assume: []string{"backoff lattice restricted to Jitter in [0,1], Multiplier >= 1, MaxBackoff <= 100 years", "the breaker is exercised at cooldown-1ns and cooldown+1ns, not at exactly the cooldown"},
 		Direct: c17Direct,
 		Plan:   c17Plan,
